@@ -59,10 +59,10 @@ fn check_slice(ctx: &mut Ctx, s: &[u8]) {
 }
 
 /// write Root[ leaf ] with the real writer, find the leaf's payload with RefCodec
-fn written_payload(ctx: &mut Ctx, id: u64, val: Val) -> Result<Vec<u8>, String> {
+fn written_payload(ctx: &mut Ctx, id: u64, val: Val, opt: WOpt) -> Result<Vec<u8>, String> {
     let calls = vec![
         WCall::Tag(NItem::Start(ID_ROOT), WOpt::Default),
-        WCall::Tag(NItem::Leaf(id, val), WOpt::Default),
+        WCall::Tag(NItem::Leaf(id, val), opt.clone()),
         WCall::Tag(NItem::End(ID_ROOT), WOpt::Default),
     ];
     ctx.transitions += 4;
@@ -85,12 +85,18 @@ fn written_payload(ctx: &mut Ctx, id: u64, val: Val) -> Result<Vec<u8>, String> 
     if h2.id != id || h.size != Some(inner.len() as u64) || start + size != inner.len() {
         return Err(format!("output {} is not Root[leaf]", hex(&out)));
     }
+    if let WOpt::Width(w) = opt {
+        if h2.size_len != w as usize {
+            return Err(format!("output {}: size field of the leaf has {} bytes, {} were requested", hex(&out), h2.size_len, w));
+        }
+    }
     Ok(inner[start..].to_vec())
 }
 
-fn check_value(ctx: &mut Ctx, val: Val) {
+fn check_value(ctx: &mut Ctx, val: Val, opt: WOpt) {
     let vv = val.clone();
-    let d = move || format!("writer payload of {:?}", vv);
+    let oo = opt.clone();
+    let d = move || format!("writer payload of {:?} written with {:?}", vv, oo);
     if !ctx.enter(&d) {
         return;
     }
@@ -101,7 +107,7 @@ fn check_value(ctx: &mut Ctx, val: Val) {
         Val::F(b) => (ID_F, b.to_be_bytes().to_vec()),
         _ => unreachable!(),
     };
-    match written_payload(ctx, id, val.clone()) {
+    match written_payload(ctx, id, val.clone(), opt.clone()) {
         Err(e) => ctx.violation("writer/unusable-output", &d, &e),
         Ok(p) => {
             if p != want {
@@ -117,7 +123,7 @@ fn check_value(ctx: &mut Ctx, val: Val) {
             if !back {
                 ctx.violation("writer/decoder-does-not-invert", &d, &format!("payload {}", hex(&p)));
             }
-            ctx.count("writer_values", 1);
+            ctx.count(if opt == WOpt::Default { "writer_values" } else { "writer_values_with_explicit_size_width" }, 1);
         }
     }
     ctx.validated += 1;
@@ -126,10 +132,10 @@ fn check_value(ctx: &mut Ctx, val: Val) {
 
 pub fn run(ctx: &mut Ctx) {
     let tail: &[u8] = ctx.tier.pick(&[0x00, 0x7f, 0x80, 0xff][..], &[0x00, 0x01, 0x7f, 0x80, 0xff][..]);
-    ctx.meta("rule", "cases: every byte slice of length 0-2, every slice of length 3-9 over the tail alphabet with a free first byte (thorough) through arr_to_u64 / arr_to_i64 / arr_to_f64 against RefCodec; every lattice value 2^j+{-2..2} of u64 and ±2^j+{-2..2} of i64 and the float classes written as Root[leaf] by the real TagWriter, payload located with RefCodec and required to be the minimal 1/2/4/8-byte encoding that the library decoders map back to the identical value. Non-trivial: slices that are empty, have length >= 8 or the top bit set; all writer values.");
+    ctx.meta("rule", "cases: every byte slice of length 0-2, every slice of length 3-9 over the tail alphabet with a free first byte (thorough) through arr_to_u64 / arr_to_i64 / arr_to_f64 against RefCodec; every lattice value 2^j+{-2..2} of u64 and ±2^j+{-2..2} of i64 and the float classes written as Root[leaf] by the real TagWriter, with the default options and with every explicit size-field width 1-8 (write_advanced), payload located with RefCodec and required to be the minimal 1/2/4/8-byte encoding that the library decoders map back to the identical value. Non-trivial: slices that are empty, have length >= 8 or the top bit set; all writer values.");
     ctx.meta("bounds", &format!("slice lengths 0..=9, tail alphabet {}", hex(tail)));
     ctx.meta("assumptions", "64-bit target || bytes other than the first are only shifted/added by the integer decoders (small tail alphabet for length >= 3)");
-    for c in ["u64_value", "u64_error", "i64_value", "i64_error", "f64_value", "f64_error", "writer_values"] {
+    for c in ["u64_value", "u64_error", "i64_value", "i64_error", "f64_value", "f64_error", "writer_values", "writer_values_with_explicit_size_width"] {
         ctx.expect_nonzero(c);
     }
     if ctx.mine(0) {
@@ -186,7 +192,11 @@ pub fn run(ctx: &mut Ctx) {
     vals.retain(|v| seen.insert(v.clone()));
     for (i, v) in vals.into_iter().enumerate() {
         if ctx.mine(i as u64) {
-            check_value(ctx, v);
+            check_value(ctx, v.clone(), WOpt::Default);
+            // the size field's width is the caller's choice (write_advanced); the payload is not
+            for w in 1..=8u8 {
+                check_value(ctx, v.clone(), WOpt::Width(w));
+            }
         }
     }
 }
